@@ -13,6 +13,7 @@ executed or was written.  C13 oracle: whatever the file, only SyntaxError or an 
 the CLI exits non-zero with the problem/solution text on stderr.  The parsed nodes and the observed outcome are written
 as Coq terms for Model/Loader.v."""
 import json
+import re
 import os
 import random
 import subprocess
@@ -417,7 +418,7 @@ def main():
             if rnd.random() < 0.5:      # outputs go to a folder that does not exist (yet): rejecting the model must not create it
                 sub = rnd.choice(["results/", "results/run1/", "out/a/b/"])
                 for x in r[0]:
-                    x[2] = [(k, sub + v if k == "OutFileName" and "/" not in v else v) for k, v in x[2]]
+                    x[2] = [(k, sub + v if k == "OutFileName" and re.match(r"^[A-Za-z0-9_.]+$", v) else v) for k, v in x[2]]   # not the values a fault has replaced
             jobs.append((render_nodes([(x[0], x[1], x[2]) for x in r[0]], rnd), r[1], fault, {"csv": csvtxt}))
     if prop == "C13":
         jobs += c13_jobs(rnd, [j for j in jobs if j[1] is None], n)
